@@ -114,6 +114,19 @@ def run_one(sc):
                 with open(paths[0], "wb") as fh:
                     fh.write(raw[0])
                 os.utime(paths[0], ns=(st.st_atime_ns, st.st_mtime_ns))
+        if env.get("prior") == "failed" and nmissing == 0 and paths:
+            # the process' previous call read the same inputs and then failed to create its output (the path is a directory)
+            blocked = os.path.join(tmp, "blocked.rtf")
+            os.mkdir(blocked)
+            try:
+                assemble_rtf(paths, blocked)
+            except Exception:  # noqa
+                pass
+        elif env.get("prior") == "other" and nmissing == 0 and paths:
+            try:
+                assemble_rtf([paths[-1], paths[0]], os.path.join(tmp, "earlier2.rtf"))
+            except Exception:  # noqa
+                pass
         if env.get("stale") and files:
             # a longer file from an earlier run sits at the output path
             with open(out, "wb") as fh:
